@@ -7,8 +7,8 @@ use std::collections::{BTreeMap, BTreeSet};
 pub fn n_cases(prop: &str, tier: &str) -> usize {
     let quick = tier == "quick";
     match prop {
-        "C13" => if quick { 300 } else { 5000 },
-        "C18" => if quick { 500 } else { 20_000 },
+        "C13" => if quick { 600 } else { 5000 },
+        "C18" => if quick { 1000 } else { 20_000 },
         _ => 0,
     }
 }
